@@ -56,7 +56,7 @@ package nflog
 // to the same last-writer-wins merge as replicated entries, with expiry min(2*repeat, retention) counted from the
 // timestamp, and receiver data handed through unchanged. Other keys are never touched; timestamps never go back.
 //@ func (*Log).Log
-//@   props C10 C04
+//@   props C10 C04 C11
 //@   ensures [monitor-lock-released] count("Mutex).Lock") == count("Mutex).Unlock") && count("Mutex).Lock") <= 1
 //@   at call state).merge assert [monitor-lock-held] count("Mutex).Lock") == 1 && count("Mutex).Unlock") == 0
 //@   requires l != nil && r != nil && l.st != nil && wfState(l.st) && l.broadcast != nil
@@ -161,7 +161,7 @@ package nflog
 // C10: merging a received batch. The log never goes backwards, only unexpired entries taken from the batch are
 // stored, keys not mentioned keep their entry, and a batch that does not decode changes nothing.
 //@ func (*Log).Merge
-//@   props C10
+//@   props C10 C19
 //@   ensures [monitor-lock-released] count("Mutex).Lock") == count("Mutex).Unlock") && count("Mutex).Lock") <= 1
 //@   at call state).merge assert [monitor-lock-held] count("Mutex).Lock") == 1 && count("Mutex).Unlock") == 0
 //@   requires l != nil && l.st != nil && wfState(l.st) && l.broadcast != nil && l.metrics != nil && l.metrics.propagatedMessagesTotal != nil && l.logger != nil
